@@ -10,6 +10,7 @@ import UgoVerif.Model.Eval
     cerr <pos>         the compile failed (nothing ran)
     panic              a Go panic escapes Eval.Run
     unsupported <why>  outside the modelled subset: the rest of the session is not compared
+  The session stops after the first fragment that does not return a value (as the property does).
 -/
 namespace Driver
 open UgoVerif UgoVerif.Go UgoVerif.Ast UgoVerif.Compile UgoVerif.VM UgoVerif.Eval
@@ -113,7 +114,8 @@ def handleEval (args : List String) : String :=
             let oldN := s.constants.size
             let o := evalRun nativeFloat fuelS.toNat! s file
             let r := showRun o oldN
-            if r.startsWith "unsupported" || r == "panic" || r == "bad" then acc ++ [r]
+            let failed := match o.result with | .value _ => false | _ => true
+            if failed || r.startsWith "unsupported" || r == "panic" || r == "bad" then acc ++ [r]
             else go o.session rest (acc ++ [r]) n
       " ;; ".intercalate (go s0 asts [] (asts.length + 1))
   | _ => "bad-op"
